@@ -3,7 +3,7 @@
 # This only verifies the toolchain the checks rely on and creates the scratch directories.
 cd "$(dirname "$0")/.." || exit 2
 mkdir -p build evidence replays
-for t in gcc ar python3 gcov; do
+for t in gcc g++ ar python3 gcov gdb rustc; do
   command -v $t >/dev/null 2>&1 || { echo "setup: missing tool $t"; exit 2; }
 done
 echo 'int main(void){return 0;}' > build/.t.c
